@@ -43,7 +43,7 @@ func (g *Engine) registerIntrinsics() {
 		I["vx:"+name] = func(e *Exec, fn *ssa.Function, a []Value, pos token.Pos) Value {
 			if e.spec > 0 {
 				switch name {
-				case "vxSameObject", "vxOffsetIn", "vxIsNilSlice", "vxThorough", "vxKnownOpen":
+				case "vxSameObject", "vxOffsetIn", "vxIsNilSlice", "vxThorough", "vxKnownOpen", "vxAt":
 				default:
 					panic(specAbort{"vx call"})
 				}
@@ -112,6 +112,12 @@ func (g *Engine) registerIntrinsics() {
 	})
 	vx("vxOffsetIn", func(e *Exec, a []Value, pos token.Pos) Value {
 		return e.tb.Bin(OSub, a[0].(*Slice).off, a[1].(*Slice).off)
+	})
+	vx("vxAt", func(e *Exec, a []Value, pos token.Pos) Value {
+		s := a[0].(*Slice)
+		i := a[1].(*Term)
+		in := e.inRange(i, s.len)
+		return e.tb.Ite(in, e.sliceReadGuarded(s, i, in), e.tb.K(8, 0))
 	})
 	vx("vxIsNilSlice", func(e *Exec, a []Value, pos token.Pos) Value { return e.tb.Bool(a[0].(*Slice).isNil()) })
 	vx("vxChoose", func(e *Exec, a []Value, pos token.Pos) Value {
